@@ -3,7 +3,7 @@
 
   `run (init cfg) ops` is the PipelinedMemDB after an arbitrary sequence of
   set/delete/get/batch-get/flush(force, observed Mem, late completion)/flushDone(result)/flushWait/stage/release/cleanup,
-  for arbitrary thresholds `cfg`; `runBoth` runs the specification (`Spec`: the write log, the write log since the last
+  for arbitrary thresholds `cfg` (model of the tree WITH the fixes C16-1 and C16-2); `runBoth` runs the specification (`Spec`: the write log, the write log since the last
   triggered flush, the closed batches) alongside.
 -/
 import ClientGoVerif.Proofs.Pipelined
@@ -12,45 +12,30 @@ open CGV CGV.Pipelined
 
 /-! ## a read returns the latest write, wherever it sits -/
 
-/-- FULL statement: for every op sequence (staging included), as long as no flush error has been returned, a read of
-    `k` returns the newest entry of `k` in the transaction's write log (`none` if never written; the empty value if the
-    newest write is a delete, which thereby hides every tier).
-    FALSE for the code as it stands — see `get_latest_any_tier_false`. -/
-def get_latest_any_tier : Prop :=
-  ∀ (cfg : Cfg) (ops : List Op) (k : Bytes), (run (init cfg) ops).failed = false →
-    readValue (runBoth (init cfg, {}) ops).1 k = (runBoth (init cfg, {}) ops).2.cur.get k
-
-def cacheWitness : List Op := [.stage, .set [0x6b] [0x09], .batchGet [[0x6b]], .cleanup]
-
-/-- `stage; set k v; BatchGet(k); cleanup; Get(k)` returns the rolled-back `v`: BatchGet caches what it finds in the
-    mutable buffer and only Flush drops the cache (replayed on the real code: known finding
-    C16-batchget-cache-survives-cleanup) -/
-theorem get_latest_any_tier_false : ¬ get_latest_any_tier := by
-  intro h
-  have := h {} cacheWitness [0x6b] (by decide)
-  revert this
-  decide
-
-/-- PROVED PART: the same statement for every op sequence in which BatchGet is not called while a staging handle is
-    open (`RunOk`).  Covers all flush timings (`flushDone` anywhere, late completions), failures, thresholds. -/
-theorem get_latest_any_tier_partial (cfg : Cfg) (ops : List Op) (k : Bytes) (hok : RunOk (init cfg) ops)
+/-- for EVERY op sequence (staging, cleanup, BatchGet anywhere), all thresholds, all flush timings and failures: as long
+    as no flush error has been returned, a read of `k` returns the newest entry of `k` in the transaction's write log
+    (`none` if never written or rolled back by Cleanup; the empty value if the newest write is a delete, which thereby
+    hides every tier).  (Was false before the fix C16-2: the batch-get cache survived Cleanup.) -/
+theorem get_latest_any_tier (cfg : Cfg) (ops : List Op) (k : Bytes)
     (hnf : (run (init cfg) ops).failed = false) :
     readValue (runBoth (init cfg, {}) ops).1 k = (runBoth (init cfg, {}) ops).2.cur.get k := by
-  have h := inv_run ops (inv_init cfg) hok hnf
+  have h := inv_run ops (inv_init cfg) hnf
   rw [readValue_eq_view h k]
   exact h.view k
 
-example : RunOk (init {}) [.set [1] [2], .flush true 0 ⟨.ok, 0⟩, .stage, .del [1], .cleanup, .batchGet [[1]], .flushDone ⟨.ok, 0⟩]
-    ∧ (run (init {}) [.set [1] [2], .flush true 0 ⟨.ok, 0⟩, .stage, .del [1], .cleanup, .batchGet [[1]], .flushDone ⟨.ok, 0⟩]).failed = false := by
-  decide
+example : (run (init {}) [.set [1] [2], .flush true 0 ⟨.ok, 0⟩, .stage, .del [1], .batchGet [[1]], .cleanup,
+    .flushDone ⟨.ok, 0⟩]).failed = false := by decide
+
+/-- the former counter-example `stage; set k v; BatchGet(k); cleanup; Get(k)` now reads "not found" -/
+example : readValue (run (init {}) [.stage, .set [0x6b] [0x09], .batchGet [[0x6b]], .cleanup]) [0x6b] = none := by decide
 
 /-- a deletion hides every tier: when the newest write of `k` is a delete, a read returns the tombstone (empty value),
     never an older value from the flushing buffer, the cache or the store -/
-theorem delete_hides_all_tiers_partial (cfg : Cfg) (ops : List Op) (k : Bytes) (hok : RunOk (init cfg) ops)
+theorem delete_hides_all_tiers (cfg : Cfg) (ops : List Op) (k : Bytes)
     (hnf : (run (init cfg) ops).failed = false)
     (hdel : (runBoth (init cfg, {}) ops).2.cur.get k = some []) :
     readValue (runBoth (init cfg, {}) ops).1 k = some [] := by
-  rw [get_latest_any_tier_partial cfg ops k hok hnf, hdel]
+  rw [get_latest_any_tier cfg ops k hnf, hdel]
 
 example : (runBoth (init {}, {}) [.set [1] [2], .flush true 0 ⟨.ok, 0⟩, .flushDone ⟨.ok, 0⟩, .del [1]]).2.cur.get [1] = some [] := by
   decide
@@ -138,90 +123,45 @@ theorem failing_flush_closes_running_ttl (s : PState) (f : Buf) (c : Completion)
 
 /-! ## the range handed to the range task -/
 
-/-- FULL statement: every flushed key lies in the half-open range [pipelinedStart, pipelinedEnd) that
-    resolveFlushedLocks passes to RunOnRange.  FALSE for the code as it stands (DESIGN S7, confirmed): the end bound is
-    the largest flushed key itself. -/
-def resolve_range_covers_flushed : Prop :=
-  ∀ bs : List (List Bytes), validBatches bs →
-    ∀ k ∈ bs.flatten, inRange (boundsOf bs).1 (boundsOf bs).2 k = true
-
-theorem resolve_range_covers_flushed_false : ¬ resolve_range_covers_flushed := by
-  intro h
-  have := h [[[0x61]]] (by intro b hb; simp at hb; subst hb; simp) [0x61] (by simp)
-  revert this
-  decide
-
-/-- it is never true: whatever was flushed, the largest flushed key is the end bound and therefore outside -/
-theorem resolve_range_never_covers_last (bs : List (List Bytes)) (hv : validBatches bs) (hne : bs ≠ []) :
-    (boundsOf bs).2 ∈ bs.flatten ∧ inRange (boundsOf bs).1 (boundsOf bs).2 (boundsOf bs).2 = false := by
-  refine ⟨(boundsOf_spec hv hne).2.1, ?_⟩
-  unfold inRange; rw [lt_irrefl']; simp
-
 example : validBatches [[[0x61], [0x63]], [[0x62]]] := by
   intro b hb; simp at hb; rcases hb with hb | hb <;> subst hb <;> simp
 
-/-- PROVED PART: the bounds are the least and the greatest flushed key (closed range), so every flushed key other than
-    the greatest lies in the half-open range -/
-theorem resolve_range_covers_flushed_partial (bs : List (List Bytes)) (hv : validBatches bs) (k : Bytes)
-    (hk : k ∈ bs.flatten) :
-    Bytes.le (boundsOf bs).1 k = true ∧ Bytes.le k (boundsOf bs).2 = true ∧
-    (k ≠ (boundsOf bs).2 → inRange (boundsOf bs).1 (boundsOf bs).2 k = true) := by
+/-- the bounds are tight: pipelinedStart is the least flushed key, pipelinedEnd is NextKey of the greatest one -/
+theorem resolve_range_tight (bs : List (List Bytes)) (hv : validBatches bs) (hne : bs ≠ []) :
+    (boundsOf bs).1 ∈ bs.flatten ∧ ∃ g ∈ bs.flatten, (boundsOf bs).2 = nextKey g ∧
+    ∀ k ∈ bs.flatten, Bytes.le (boundsOf bs).1 k = true ∧ Bytes.le k g = true :=
+  boundsOf_spec hv hne
+
+/-- every flushed key lies in the half-open range [pipelinedStart, pipelinedEnd) that resolveFlushedLocks passes to
+    RunOnRange — for every sequence of flushed batches.  (Was false before the fix C16-1, DESIGN S7: the end bound was
+    the largest flushed key itself.) -/
+theorem resolve_range_covers_flushed (bs : List (List Bytes)) (hv : validBatches bs) (k : Bytes)
+    (hk : k ∈ bs.flatten) : inRange (boundsOf bs).1 (boundsOf bs).2 k = true := by
   have hne : bs ≠ [] := by intro h; subst h; simp at hk
-  obtain ⟨_, _, h3⟩ := boundsOf_spec hv hne
+  obtain ⟨_, g, _, hpe, h3⟩ := boundsOf_spec hv hne
   obtain ⟨h1, h2⟩ := h3 k hk
-  refine ⟨h1, h2, ?_⟩
-  intro hne2
   unfold inRange
-  rcases le_iff.mp h2 with h4 | h4
-  · simp [h1, h4]
-  · exact absurd h4 hne2
+  rw [hpe, h1, le_lt_trans h2 (lt_nextKey g)]; rfl
 
-/-- FULL statement at region level: for every region layout, every flushed key lies in a region that receives a
-    ResolveLock from the range task (RunOnRange + the region-wide resolve handler).  FALSE: see below. -/
-def resolved_regions_cover_flushed : Prop :=
-  ∀ (splits : List Bytes) (bs : List (List Bytes)), validBatches bs →
-    ∀ k ∈ bs.flatten, covered (runOnRange splits (boundsOf bs).1 (boundsOf bs).2) k = true
-
-/-- a single flushed key: start == end, "empty range task", no region is visited at all -/
-theorem resolved_regions_cover_flushed_false_single : ¬ resolved_regions_cover_flushed := by
-  intro h
-  have := h [] [[[0x61]]] (by intro b hb; simp at hb; subst hb; simp) [0x61] (by simp)
-  revert this
-  decide
-
-/-- the largest flushed key is the start key of its region: that region is never visited -/
-theorem resolved_regions_cover_flushed_false_border : ¬ resolved_regions_cover_flushed := by
-  intro h
-  have := h [[0x62], [0x6d]] [[[0x61], [0x63], [0x6d]]] (by intro b hb; simp at hb; subst hb; simp) [0x6d] (by simp)
-  revert this
-  decide
-
-/-- PROVED PART: when at least two distinct keys were flushed (start < end), every flushed key other than the greatest
-    is in a visited region for every region layout, and the greatest one too unless it is the start key of a region -/
-theorem resolved_regions_cover_flushed_partial (splits : List Bytes) (bs : List (List Bytes)) (hv : validBatches bs)
-    (hlt : Bytes.lt (boundsOf bs).1 (boundsOf bs).2 = true) (k : Bytes) (hk : k ∈ bs.flatten)
-    (hside : k ≠ (boundsOf bs).2 ∨ (boundsOf bs).2 ∉ splits) :
+/-- for every region layout and every sequence of flushed batches, every flushed key lies in a region that receives a
+    ResolveLock from the range task (RunOnRange + the region-wide resolve handler) — single-key flushes and a greatest
+    key on a region border included -/
+theorem resolved_regions_cover_flushed (splits : List Bytes) (bs : List (List Bytes)) (hv : validBatches bs)
+    (k : Bytes) (hk : k ∈ bs.flatten) :
     covered (runOnRange splits (boundsOf bs).1 (boundsOf bs).2) k = true := by
   have hne : bs ≠ [] := by intro h; subst h; simp at hk
-  obtain ⟨_, hend, _⟩ := boundsOf_spec hv hne
-  obtain ⟨h1, h2, h3⟩ := resolve_range_covers_flushed_partial bs hv k hk
-  have hnonempty : (boundsOf bs).2.isEmpty = false := by
-    obtain ⟨b, hb, hkb⟩ := List.mem_flatten.mp hend
-    have := (hv b hb).2 _ hkb
-    cases he : (boundsOf bs).2 with
-    | nil => exact absurd he this
-    | cons _ _ => rfl
+  obtain ⟨hs, g, hg, hpe, h3⟩ := boundsOf_spec hv hne
+  obtain ⟨h1, h2⟩ := h3 k hk
+  have hklt : Bytes.lt k (boundsOf bs).2 = true := by rw [hpe]; exact le_lt_trans h2 (lt_nextKey g)
+  have hlt : Bytes.lt (boundsOf bs).1 (boundsOf bs).2 = true := le_lt_trans h1 hklt
+  have hnonempty : (boundsOf bs).2.isEmpty = false := by rw [hpe]; exact nextKey_isEmpty g
   unfold runOnRange
   simp only [hnonempty, Bool.false_eq_true, if_false, hlt, Bool.not_true]
-  apply tasks_cover splits [] _ _ k (nil_le _) h1 h2
-  rcases hside with hs | hs
-  · left
-    have := h3 hs
-    unfold inRange at this
-    simp only [Bool.and_eq_true] at this
-    exact this.2
-  · right; exact hs
+  exact tasks_cover splits [] _ _ k (nil_le _) h1 (le_iff.mpr (Or.inl hklt)) (Or.inl hklt)
 
-example : Bytes.lt (boundsOf [[[0x61], [0x63]], [[0x62]]]).1 (boundsOf [[[0x61], [0x63]], [[0x62]]]).2 = true := by decide
+/-- the former counter-examples: a single flushed key, and a greatest key that is the start key of its region -/
+example : covered (runOnRange [] (boundsOf [[[0x61]]]).1 (boundsOf [[[0x61]]]).2) [0x61] = true := by decide
+example : covered (runOnRange [[0x62], [0x6d]] (boundsOf [[[0x61], [0x63], [0x6d]]]).1 (boundsOf [[[0x61], [0x63], [0x6d]]]).2) [0x6d] = true := by
+  decide
 
 end CGV.Props.C16
